@@ -424,6 +424,12 @@ impl Stream {
         data.entries.last().cloned()
     }
     
+    /// Greatest ID ever added to the stream (0-0 for a new stream); deleting entries keeps it
+    pub fn last_id(&self) -> StreamId {
+        let data = self.data.lock().unwrap();
+        data.last_id
+    }
+    
     /// Trim operations - direct mutation, no cloning
     pub fn trim_by_count(&self, max_count: usize) -> usize {
         let mut data = self.data.lock().unwrap();
